@@ -3,16 +3,9 @@ import json, os
 VERIF = os.path.dirname(os.path.dirname(os.path.abspath(__file__)))
 ALL = [f"C{i:02d}" for i in range(1, 21)]
 
-CLAIMS = {
- "C19": dict(level="proof", technique="Coq proof over Q (lra/field) + differential correspondence of the executable model (vm_compute)",
-   text="Theorems C19_* (props/C19.v) prove, for every tick>0, price and side, that rounding leaves on-grid prices unchanged, lands on the grid, "
-        "and moves an off-grid price by less than one tick downwards for buys / upwards for sells (exact rationals). The model function is the one "
-        "the Level-M market model calls in add_order; that model is run against pams.market.Market on generated histories every run and must agree exactly "
-        "on dyadic ticks/prices; a Python monitor written from the property text checks every accepted price (strict on dyadic, 1e-9 relative otherwise).",
-   note="Trusted: Coq kernel; the hand-written model + correspondence harness; float arithmetic is exact only on the dyadic stream (tick 2^-k, |price|<2^40); "
-        "for decimal ticks the property's own hedge applies and the monitor uses a 1e-9 relative tolerance.",
-   design="5/C19"),
-}
+import sys
+sys.path.insert(0, os.path.dirname(os.path.abspath(__file__)))
+from claims import CLAIMS, NOT_CLAIMED
 
 def main():
     checks = []
@@ -31,7 +24,7 @@ def main():
             "level_note": c["note"],
             "technique": c["technique"],
         })
-    na = [{"property_id": p, "reason": NA.get(p, "check not built yet in this round (planned: see DESIGN.md section 5); not claimed until its check exists")}
+    na = [{"property_id": p, "reason": NOT_CLAIMED.get(p, "check not built yet in this round (planned: see DESIGN.md section 5); not claimed until its check exists")}
           for p in ALL if p not in CLAIMS]
     m = {
         "version": 1,
@@ -48,6 +41,5 @@ def main():
     }
     json.dump(m, open(os.path.join(VERIF, "MANIFEST.json"), "w"), indent=1)
 
-NA = {}
 if __name__ == "__main__":
     main()
